@@ -25,13 +25,27 @@ def _lvalue_leaves(e):
     return sorted(set(out))
 
 
-def lowers_ascii(prog, r):
-    """is the stored value, as a function of the one input character it reads, ASCII tolower()?  True / False / None (cannot tell)"""
+def lowers_ascii(prog, r, guards=()):
+    """is the stored value, as a function of the one input character it reads, ASCII tolower()?  True / False / None (cannot tell).
+    guards: [(condition node, truth)] of the enclosing if-statements; a condition that reads only the same character restricts the
+    codes the store can see (`else if (c == ' ') out[j++] = c;` stores a blank)."""
     leaves = _lvalue_leaves(r)
     if len(leaves) != 1:
         return None
     try:
         for v in range(0, 128):
+            feasible = True
+            for cnd, truth in guards:
+                if _lvalue_leaves(cnd) != leaves:
+                    continue
+                try:
+                    if bool(ConstEval(prog, env_text={leaves[0]: v}).eval(cnd)) != truth:
+                        feasible = False
+                        break
+                except Exception:
+                    continue
+            if not feasible:
+                continue
             got = ConstEval(prog, env_text={leaves[0]: v}).eval(r)
             want = v + 32 if 65 <= v <= 90 else v
             if got & 0xff != want:
@@ -62,7 +76,8 @@ def case_rule(chk, prog, roles):
     chk.analysed["filter"] = fname
     # CASE1: every store into the filtered buffer is tolower(...) of something or a constant
     n = 0
-    for m in walk(prog.body(f)):
+    from valib.core import walk_with_parents
+    for m, parents in walk_with_parents(prog.body(f)):
         if m.get("kind") in ("BinaryOperator", "CompoundAssignOperator") and m.get("opcode", "").endswith("=") and m.get("opcode") not in ("==", "!=", "<=", ">="):
             l = strip(kids(m)[0])
             if EFF.lvalue_root(l)[0] in outp and l.get("kind") in ("ArraySubscriptExpr", "UnaryOperator"):
@@ -71,7 +86,17 @@ def case_rule(chk, prog, roles):
                 ok = (r.get("kind") == "CallExpr" and callee_name(r) == "tolower") or ConstEval(prog).try_eval(r) is not None
                 if not ok and m.get("opcode") == "=":
                     # a hand-written fold (possibly a helper whose body was substituted into the call): evaluate it on every ASCII code
-                    low = lowers_ascii(prog, r)
+                    guards = []
+                    chain = list(parents) + [m]
+                    for pi, pn in enumerate(chain[:-1]):
+                        if pn.get("kind") == "IfStmt":
+                            pk = kids(pn)
+                            nxt = chain[pi + 1]
+                            if len(pk) > 1 and nxt is pk[1]:
+                                guards.append((pk[0], True))
+                            elif len(pk) > 2 and nxt is pk[2]:
+                                guards.append((pk[0], False))
+                    low = lowers_ascii(prog, r, guards)
                     if low is None:
                         chk.broken("CASE", "CASE/store/%s@%s" % (fname, loc_str(m)), loc_str(m),
                                    "every character stored into the filtered line is the lower-case form of the input (or a constant)",
@@ -115,10 +140,17 @@ def run(chk, prog, tier):
     SC.noswallow_rule(chk, prog, roles)
     SC.comment_cannot_fail_rule(chk, prog, roles)
     SC.room_only_when_emitting_rule(chk, prog, roles)
+    # "except in SMART mode": the spelling of a constant may matter only while the option state really is SMART - the setters put
+    # the option field into the state their name promises (the option model of C12, decided here as a premise)
+    from checks import C12
+    expl, assum = chk.explanation, list(chk.assumptions)
+    C12.run(chk, prog, tier)
+    chk.assumptions = assum + [a for a in chk.assumptions if a not in assum]
+    chk.model = None
     chk.explanation = ("Decides the case clause: every character stored into the filtered line buffer is tolower() of the "
                        "input and nothing downstream of the filter ever sees the raw text, so no later stage can depend on letter "
                        "case. Also decides (COLUMN) that no condition of the filter uses the raw-text cursor as a value "
                        "(so where a line is cut cannot depend on how many blanks precede or separate its tokens) and (LINE) by a "
                        "prefix-concrete abstract interpretation that LF and CR each end a line consuming exactly themselves, so CRLF is an "
-                       "LF line followed by an empty line. NOT decided: blank removal inside the filter's states, comments beyond their "
+                       "LF line followed by an empty line. The option model of C12 is decided as a premise (the spelling exception is tied to SMART mode). NOT decided: blank removal inside the filter's states, comments beyond their "
                        "introducer stopping the filter, labels and number radix (a hand-written scanner over values).")
